@@ -363,6 +363,10 @@ pub fn run(thorough: bool) -> Report {
             "REM a: PRINT 1",
             "DATA 1: READ Z: PRINT Z",
             "CONT",
+            // text with line breaks in it is still one submission
+            "PRINT 1\nPRINT 2",
+            "X=1\nX=2\r\nX=3",
+            "X=1\nRUN",
         ];
         for (cname, setup) in &contexts {
             for line in lines {
